@@ -11,9 +11,11 @@ package main
 import (
 	"bytes"
 	"fmt"
+	"math"
 	"math/rand/v2"
 	"reflect"
 	"strings"
+	"time"
 
 	json "github.com/go-json-experiment/json"
 	"github.com/go-json-experiment/json/internal/jsonflags"
@@ -209,8 +211,12 @@ func c19Getters() []c19Getter {
 	gs = append(gs,
 		c19Getter{"WithIndent", "I", func(o json.Options) (any, bool) { return json.GetOption(o, jsontext.WithIndent) }},
 		c19Getter{"WithIndentPrefix", "P", func(o json.Options) (any, bool) { return json.GetOption(o, jsontext.WithIndentPrefix) }},
-		c19Getter{"WithByteLimit", "L", func(o json.Options) (any, bool) { return json.GetOption(o, func(n int64) json.Options { return jsonopts.ByteLimit(n) }) }},
-		c19Getter{"WithDepthLimit", "D", func(o json.Options) (any, bool) { return json.GetOption(o, func(n int) json.Options { return jsonopts.DepthLimit(n) }) }},
+		c19Getter{"WithByteLimit", "L", func(o json.Options) (any, bool) {
+			return json.GetOption(o, func(n int64) json.Options { return jsonopts.ByteLimit(n) })
+		}},
+		c19Getter{"WithDepthLimit", "D", func(o json.Options) (any, bool) {
+			return json.GetOption(o, func(n int) json.Options { return jsonopts.DepthLimit(n) })
+		}},
 		c19Getter{"WithMarshalers", "M", func(o json.Options) (any, bool) { return json.GetOption(o, json.WithMarshalers) }},
 		c19Getter{"WithUnmarshalers", "U", func(o json.Options) (any, bool) { return json.GetOption(o, json.WithUnmarshalers) }},
 	)
@@ -260,6 +266,7 @@ func runC19(c *Ctx) {
 			"broken": "hypothesis Opt.WF of struct_join_map: a Bools option names a non-boolean flag"})
 	}
 	c19Scoped(c)
+	c19ScopeTree(c, or)
 	c19V1V2(c)
 	c19NonInterference(c)
 	c19ExplicitDefault(c)
@@ -608,16 +615,16 @@ func c19Scoped(c *Ctx) {
 // ---- (f,g) v1 = v2 + DefaultOptionsV1 ; DefaultOptionsV2 cancels v1 options
 
 type c19T struct {
-	A int               `json:"a,omitempty"`
-	B string            `json:"b"`
-	C []byte            `json:"c"`
-	D map[string]int    `json:"d"`
-	E []int             `json:"e"`
-	F *int              `json:"f,omitempty"`
-	G [2]byte           `json:"g"`
-	H float64           `json:"h,string"`
-	I map[int]string    `json:"i"`
-	J any               `json:"j"`
+	A int                `json:"a,omitempty"`
+	B string             `json:"b"`
+	C []byte             `json:"c"`
+	D map[string]int     `json:"d"`
+	E []int              `json:"e"`
+	F *int               `json:"f,omitempty"`
+	G [2]byte            `json:"g"`
+	H float64            `json:"h,string"`
+	I map[int]string     `json:"i"`
+	J any                `json:"j"`
 	K struct{ X, Y int } `json:"k"`
 }
 
@@ -798,6 +805,54 @@ func c19NonInterference(c *Ctx) {
 // ---- (i) an option explicitly set to its default value behaves like the option being absent, and
 // X(true) followed by X(false) like X(false): the behavioural side of "last setter wins".
 // SpaceAfterColon/SpaceAfterComma are excluded: under Multiline an explicit false is documented to differ from absent.
+// c19F: every kind of `format`-tagged field (needs ExperimentalSupportFormatTag), so that options read by the format
+// specific code paths (time, duration, bytes, nil containers, non-finite floats) are exercised too.
+type c19F struct {
+	T1 time.Time      `json:"t1,format:unix"`
+	T2 time.Time      `json:"t2,format:unixmilli"`
+	T3 time.Time      `json:"t3,format:unixmicro"`
+	T4 time.Time      `json:"t4,format:unixnano"`
+	T5 time.Time      `json:"t5,format:RFC3339"`
+	T6 time.Time      `json:"t6"`
+	T7 time.Time      `json:"t7,string,format:unix"`
+	T8 time.Time      `json:"t8,format:DateOnly"`
+	D1 time.Duration  `json:"d1,format:sec"`
+	D2 time.Duration  `json:"d2,format:milli"`
+	D3 time.Duration  `json:"d3,format:nano"`
+	D4 time.Duration  `json:"d4,format:units"`
+	D5 time.Duration  `json:"d5,format:iso8601"`
+	D6 time.Duration  `json:"d6,string,format:micro"`
+	B1 []byte         `json:"b1,format:base64url"`
+	B2 []byte         `json:"b2,format:hex"`
+	B3 [2]byte        `json:"b3,format:array"`
+	B4 []byte         `json:"b4,format:base32"`
+	S1 []int          `json:"s1,format:emitnull"`
+	S2 []int          `json:"s2,format:emitempty"`
+	M1 map[string]int `json:"m1,format:emitnull"`
+	M2 map[string]int `json:"m2,format:emitempty"`
+	N  int            `json:"n,string"`
+	F  float64        `json:"f,format:nonfinite"`
+	P  *time.Time     `json:"p,format:unixmilli"`
+}
+
+func c19FVal(r *rand.Rand) any {
+	tm := func() time.Time { return time.Unix(r.Int64N(4e9)-1e9, int64(r.IntN(2))*r.Int64N(1e9)).UTC() }
+	du := func() time.Duration { return time.Duration(r.Int64N(1e15) - 5e14) }
+	f := c19F{T1: tm(), T2: tm(), T3: tm(), T4: tm(), T5: tm(), T6: tm(), T7: tm(), T8: time.Date(1990+r.IntN(60), 3, 7, 0, 0, 0, 0, time.UTC),
+		D1: du(), D2: du(), D3: du(), D4: du(), D5: du(), D6: du(), B1: []byte("\xfb\xff?"), B2: []byte("hi"), B3: [2]byte{1, 2}, N: r.IntN(100),
+		F: []float64{0, 1.5, math.Inf(1), math.Inf(-1), math.NaN()}[r.IntN(4)]}
+	if r.IntN(2) == 0 {
+		f.S1, f.S2, f.M1, f.M2 = []int{}, []int{1}, map[string]int{}, map[string]int{"k": 1}
+		f.B4 = []byte("abc")
+		t := tm()
+		f.P = &t
+	}
+	if r.IntN(3) == 0 {
+		return []c19F{f}
+	}
+	return f
+}
+
 func c19ExplicitDefault(c *Ctx) {
 	n := c.N(4000, 300000)
 	var ctors []boolCtor
@@ -812,10 +867,16 @@ func c19ExplicitDefault(c *Ctx) {
 		v := c19Val(c.Rng)
 		bc := ctors[c.Rng.IntN(len(ctors))]
 		base := []json.Options{json.Deterministic(true)}
+		if i%2 == 1 { // format-tagged fields: time, duration, bytes, nil containers
+			v = c19FVal(c.Rng)
+			base = append(base, json.ExperimentalSupportFormatTag(true))
+			c.Hit("explicit-default-format-tagged")
+		}
 		variants := [][]json.Options{
 			append(base[:len(base):len(base)], bc.f(false)),
 			append(base[:len(base):len(base)], bc.f(true), bc.f(false)),
 			append(append([]json.Options{bc.f(true)}, base...), json.DefaultOptionsV2(), json.Deterministic(true)),
+			append([]json.Options{bc.f(false)}, base...),
 			append(base[:len(base):len(base)], json.JoinOptions(bc.f(true), bc.f(false))),
 		}
 		isV1 := false
@@ -823,7 +884,7 @@ func c19ExplicitDefault(c *Ctx) {
 			isV1 = isV1 || n == bc.name
 		}
 		if !isV1 { // DefaultOptionsV2 only cancels the v1 flags
-			variants = append(variants[:2:2], variants[3])
+			variants = append(variants[:2:2], variants[3:]...)
 		}
 		b0, e0 := json.Marshal(v, base...)
 		for vi, opts := range variants {
@@ -832,7 +893,11 @@ func c19ExplicitDefault(c *Ctx) {
 				c.Violate("explicit-default-marshal", bc.name, nil, map[string]any{"variant": vi, "value": fmt.Sprintf("%#v", v), "absent": string(b0), "explicit": string(b1), "e0": fmt.Sprint(e0), "e1": fmt.Sprint(e1)})
 			}
 		}
+		if e0 != nil {
+			c.Hit("explicit-default-marshal-error")
+		}
 		if e0 == nil {
+			c.Hit("explicit-default-marshal-ok")
 			text := b0
 			if c.Rng.IntN(5) == 0 && len(text) > 2 {
 				text = text[:c.Rng.IntN(len(text))]
@@ -846,6 +911,29 @@ func c19ExplicitDefault(c *Ctx) {
 					c.Violate("explicit-default-unmarshal", bc.name, text, map[string]any{"variant": vi, "u0": fmt.Sprint(u0), "u1": fmt.Sprint(u1)})
 				}
 			}
+		}
+		// round trip under ONE option set: what Marshal emits with an option (true or false) Unmarshal accepts with the
+		// same option, and marshaling the result again gives the same text
+		for _, bv := range []bool{false, true} {
+			opts := append(base[:len(base):len(base)], bc.f(bv))
+			if c.Rng.IntN(2) == 0 { // also as a pre-joined set
+				opts = []json.Options{json.JoinOptions(opts...)}
+			}
+			m1, e1 := json.Marshal(v, opts...)
+			if e1 != nil {
+				continue
+			}
+			p1 := reflect.New(reflect.TypeOf(v))
+			u1 := json.Unmarshal(m1, p1.Interface(), opts...)
+			var m2 []byte
+			var e2 error
+			if u1 == nil {
+				m2, e2 = json.Marshal(p1.Elem().Interface(), opts...)
+			}
+			if u1 != nil || e2 != nil || !bytes.Equal(m1, m2) {
+				c.Violate("option-roundtrip", bc.name, m1, map[string]any{"value": fmt.Sprintf("%T", v), "option": fmt.Sprintf("%s(%v)", bc.name, bv), "unmarshal": fmt.Sprint(u1), "remarshal": fmt.Sprint(e2), "first": string(m1), "second": string(m2)})
+			}
+			c.Hit("option-roundtrip")
 		}
 		c.Case("xd:"+bc.name+":"+string(b0), true)
 	}
